@@ -1,4 +1,3 @@
-(* WIP *)
 (* C13 (schedules) — a connection B resumes the session of client id X while a publisher sends a
    QoS 1 message to a topic the session is subscribed to.  Interleaving model of the window in
    server.go attachClient between inheritClientSession, Clients.Add and SendConnack, at the
@@ -29,44 +28,56 @@ Inductive wpkt := WConnack | WPublish.
 Record cstate := {
   registered_new : bool;     (* Clients[X] is B (otherwise the old object) *)
   inherited : bool;          (* inheritClientSession has run *)
+  connack_sent : bool;       (* SendConnack has run *)
   old_infl : nat;            (* messages in the old object's in-flight map *)
   new_infl : nat;            (* messages in B's in-flight map *)
   queue : list wpkt;         (* B's outbound channel *)
-  wire : list wpkt }.        (* what has been written to B's connection *)
+  wire : list wpkt;          (* what has been written to B's connection *)
+  early_write : bool;        (* ghost: the write loop wrote before SendConnack *)
+  window_publish : bool }.   (* ghost: the publisher ran between inheritClientSession and Clients.Add *)
 
 Inductive instr := Inherit | ClientsAdd | SendConnack | Resend | Publish | Write.
 
 Definition exec (t : tid) (i : instr) (s : cstate) : outcome cstate :=
   match i with
   | Inherit =>
-      Continue {| registered_new := registered_new s; inherited := true; old_infl := 0;
-                  new_infl := new_infl s + old_infl s; queue := queue s; wire := wire s |}
+      Continue {| registered_new := registered_new s; inherited := true; connack_sent := connack_sent s; old_infl := 0;
+                  new_infl := new_infl s + old_infl s; queue := queue s; wire := wire s;
+                  early_write := early_write s; window_publish := window_publish s |}
   | ClientsAdd =>
-      Continue {| registered_new := true; inherited := inherited s; old_infl := old_infl s; new_infl := new_infl s;
-                  queue := queue s; wire := wire s |}
+      Continue {| registered_new := true; inherited := inherited s; connack_sent := connack_sent s;
+                  old_infl := old_infl s; new_infl := new_infl s; queue := queue s; wire := wire s;
+                  early_write := early_write s; window_publish := window_publish s |}
   | SendConnack =>
-      Continue {| registered_new := registered_new s; inherited := inherited s; old_infl := old_infl s;
-                  new_infl := new_infl s; queue := queue s; wire := wire s ++ [WConnack] |}
+      Continue {| registered_new := registered_new s; inherited := inherited s; connack_sent := true;
+                  old_infl := old_infl s; new_infl := new_infl s; queue := queue s; wire := wire s ++ [WConnack];
+                  early_write := early_write s; window_publish := window_publish s |}
   | Resend =>
-      Continue {| registered_new := registered_new s; inherited := inherited s; old_infl := old_infl s;
-                  new_infl := new_infl s; queue := queue s; wire := wire s ++ repeat WPublish (new_infl s) |}
+      Continue {| registered_new := registered_new s; inherited := inherited s; connack_sent := connack_sent s;
+                  old_infl := old_infl s; new_infl := new_infl s; queue := queue s;
+                  wire := wire s ++ repeat WPublish (new_infl s);
+                  early_write := early_write s; window_publish := window_publish s |}
   | Publish =>
       if registered_new s then
-        Continue {| registered_new := true; inherited := inherited s; old_infl := old_infl s;
-                    new_infl := S (new_infl s); queue := queue s ++ [WPublish]; wire := wire s |}
+        Continue {| registered_new := true; inherited := inherited s; connack_sent := connack_sent s;
+                    old_infl := old_infl s; new_infl := S (new_infl s); queue := queue s ++ [WPublish]; wire := wire s;
+                    early_write := early_write s; window_publish := window_publish s |}
       else
-        Continue {| registered_new := false; inherited := inherited s; old_infl := S (old_infl s);
-                    new_infl := new_infl s; queue := queue s; wire := wire s |}
+        Continue {| registered_new := false; inherited := inherited s; connack_sent := connack_sent s;
+                    old_infl := S (old_infl s); new_infl := new_infl s; queue := queue s; wire := wire s;
+                    early_write := early_write s; window_publish := window_publish s || inherited s |}
   | Write =>
       match queue s with
       | [] => Blocked
-      | p :: q => Continue {| registered_new := registered_new s; inherited := inherited s; old_infl := old_infl s;
-                              new_infl := new_infl s; queue := q; wire := wire s ++ [p] |}
+      | p :: q => Continue {| registered_new := registered_new s; inherited := inherited s; connack_sent := connack_sent s;
+                              old_infl := old_infl s; new_infl := new_infl s; queue := q; wire := wire s ++ [p];
+                              early_write := early_write s || negb (connack_sent s); window_publish := window_publish s |}
       end
   end.
 
 Definition init_state : cstate :=
-  {| registered_new := false; inherited := false; old_infl := 0; new_infl := 0; queue := []; wire := [] |}.
+  {| registered_new := false; inherited := false; connack_sent := false; old_infl := 0; new_infl := 0; queue := [];
+     wire := []; early_write := false; window_publish := false |}.
 
 Definition connack_threads : cfg cstate instr :=
   mkCfg init_state [[Inherit; ClientsAdd; SendConnack; Resend]; [Publish]; [Write]].
@@ -79,37 +90,24 @@ Definition wire_connack_first (w : list wpkt) : bool :=
   match w with [] => true | WConnack :: _ => true | WPublish :: _ => false end.
 Definition connack_first (c : cfg cstate instr) : bool := wire_connack_first (wire (shared c)).
 
-(* C14 (resumed session keeps every unacknowledged message), once everything has run: the
+(* exactly one CONNACK once the attach thread is through *)
+Definition count_connack (w : list wpkt) : nat := length (filter (fun p => match p with WConnack => true | _ => false end) w).
+
+(* C14 (a resumed session keeps every unacknowledged message), once everything has run: the
    published message is held by the session of B (in its in-flight map) *)
+Definition thread_done (t : tid) (c : cfg cstate instr) : bool :=
+  match nth_error (threads c) t with Some [] => true | Some _ => false | None => true end.
 Definition message_kept (c : cfg cstate instr) : bool :=
-  negb (finished c) || Nat.ltb 0 (new_infl (shared c)).
+  negb (thread_done 0%nat c && thread_done 1%nat c) || Nat.ltb 0 (new_infl (shared c)).
 
 (* ---------- known findings: the windows, as predicates on the schedule ---------- *)
-(* the first [n] effective steps of thread t have been taken *)
-Definition remaining (t : tid) (c : cfg cstate instr) : nat :=
-  match nth_error (threads c) t with Some l => length l | None => 0 end.
-
-(* C13-1: the publisher runs after Clients.Add and the write loop writes before SendConnack *)
-Fixpoint publish_before_connack (sched : list tid) (c : cfg cstate instr) : bool :=
-  match sched with
-  | [] => false
-  | t :: r =>
-      let c' := step exec t c in
-      (* a Write took effect while thread 0 still has SendConnack ahead (2 or more instructions left) *)
-      ((Nat.eqb t 2) && enabled exec t c && Nat.leb 2 (remaining 0 c)) || publish_before_connack r c'
-  end.
-Definition KF_C13_publish_before_connack (sched : list tid) : bool := publish_before_connack sched connack_threads.
+(* C13-1: the publisher runs after Clients.Add and B's write loop writes the message before
+   SendConnack has run *)
+Definition KF_C13_publish_before_connack (sched : list tid) : bool := early_write (shared (run_connack sched)).
 
 (* C14-2: the publisher runs between inheritClientSession and Clients.Add: the message enters the
    in-flight map of the old object, which nobody reads any more *)
-Fixpoint publish_in_inherit_window (sched : list tid) (c : cfg cstate instr) : bool :=
-  match sched with
-  | [] => false
-  | t :: r =>
-      ((Nat.eqb t 1) && enabled exec t c && inherited (shared c) && negb (registered_new (shared c)))
-      || publish_in_inherit_window r (step exec t c)
-  end.
-Definition KF_C14_publish_in_inherit_window (sched : list tid) : bool := publish_in_inherit_window sched connack_threads.
+Definition KF_C14_publish_in_inherit_window (sched : list tid) : bool := window_publish (shared (run_connack sched)).
 
 (* ---------- engine ----------
    case = ((tid...) (wire...) new_infl)   wire entries: 2 = CONNACK, 3 = PUBLISH; what the real
@@ -128,7 +126,7 @@ Definition connack_engine (v : val) : val :=
           let sc' := map N.to_nat sc in
           let c := run_connack sc' in
           let first_ok := match w' with [] => true | p :: _ => p =? 2 end in
-          let kept_ok := negb (finished c) || (0 <? infl) in
+          let kept_ok := negb (thread_done 0%nat c && thread_done 1%nat c) || (0 <? infl) in
           if negb first_ok then
             if KF_C13_publish_before_connack sc' then verdict 3 (tag "connack") true [VB (tag "KF_C13_publish_before_connack")]
             else verdict 1 (tag "connack") true []
